@@ -17,6 +17,7 @@ import (
 	"fmt"
 	"math/rand"
 	"os"
+	"os/exec"
 	"path/filepath"
 	"sort"
 	"sync"
@@ -221,6 +222,7 @@ type recovered struct {
 	C         uint64                 `json:"c"`
 	Alhs      []int                  `json:"alhs"`
 	ChainOk   bool                   `json:"chainOk"`
+	LinkOk    bool                   `json:"linkOk"`
 	ContentOk bool                   `json:"contentOk"`
 	// values of recovered txs that were not committed before the crash are readable
 	ExtraValuesOk bool `json:"extraValuesOk"`
@@ -254,7 +256,7 @@ func (w *workload) recoverImage(dir string, acks []ack, committedAt uint64, rec 
 		hdrs := make([]*store.TxHeader, 0, n)
 		latest := map[string][]byte{}
 		contents := map[uint64][sha256.Size]byte{}
-		rec.ChainOk, rec.ContentOk, rec.ExtraValuesOk = true, true, true
+		rec.ChainOk, rec.ContentOk, rec.ExtraValuesOk, rec.LinkOk = true, true, true, true
 		for id := uint64(1); id <= n; id++ {
 			if err := st.ReadTx(id, false, txh); err != nil {
 				rec.ChainOk = false
@@ -273,7 +275,13 @@ func (w *workload) recoverImage(dir string, acks []ack, committedAt uint64, rec 
 			}
 			if !ok {
 				rec.ChainOk = false
-				rec.Detail += fmt.Sprintf("chain broken at tx %d; ", id)
+				linkOk := hdr.ID == id && (id == 1 && hdr.PrevAlh == storetrace.Genesis || id > 1 && hdr.PrevAlh == alhs[id-2])
+				if linkOk {
+					rec.Detail += fmt.Sprintf("BlRoot of tx %d is not the reference root; ", id)
+				} else {
+					rec.LinkOk = false
+					rec.Detail += fmt.Sprintf("linear chain broken at tx %d (PrevAlh is not the Alh of its predecessor); ", id)
+				}
 			}
 			alhs = append(alhs, hdr.Alh())
 			hdrs = append(hdrs, hdr)
@@ -369,6 +377,17 @@ func (w *workload) recoverImage(dir string, acks []ack, committedAt uint64, rec 
 				}()
 			}
 			hdr, err2 := tx.Commit(ctx)
+			for tries := 0; errors.Is(err2, store.ErrMaxActiveTransactionsLimitExceeded) && tries < 2000; tries++ {
+				// the reloaded backlog fills the window until the syncer has committed it
+				time.Sleep(time.Millisecond)
+				st.AllowCommitUpto(st.LastPrecommittedTxID())
+				tx, err = st.NewWriteOnlyTx(ctx)
+				if err != nil {
+					break
+				}
+				tx.Set([]byte("after-crash"), nil, []byte("v"))
+				hdr, err2 = tx.Commit(ctx)
+			}
 			close(done)
 			if err2 == nil {
 				ref, err3 := st.Get(ctx, []byte("after-crash"))
@@ -400,11 +419,147 @@ func committedBefore(events []storetrace.Event, at int) uint64 {
 		if events[i]["ev"] == "Committed" {
 			c = events[i]["upto"].(uint64)
 		}
+		if events[i]["ev"] == "Adopt" {
+			if a, ok := events[i]["alhs"].([]int); ok {
+				c = uint64(len(a))
+			}
+		}
 	}
 	return c
 }
 
+// backlogAt: how many txs were precommitted but not committed at event index `at`
+func backlogAt(events []storetrace.Event, at int) int {
+	var pre, com uint64
+	for i := 0; i < at && i < len(events); i++ {
+		switch events[i]["ev"] {
+		case "Precommit":
+			pre = events[i]["id"].(uint64)
+		case "Committed":
+			com = events[i]["upto"].(uint64)
+		case "Discard":
+			pre = events[i]["since"].(uint64) - 1
+		}
+	}
+	if pre > com {
+		return int(pre - com)
+	}
+	return 0
+}
+
+type segment struct {
+	events []storetrace.Event
+	recs   []*recovered
+}
+
+// secondLevel opens the store on a first-level crash image with the hooks on, continues with a few commits of the same
+// shape as before (so that new records overwrite discarded ones in place), and enumerates the crash points of that
+// continuation (including the recovery itself).
+func (w *workload) secondLevel(d1root string, r1 *recovered, seed int64, res *vh.Result) *segment {
+	tr := storetrace.New(d1root)
+	tr.RecordOps = true
+	base := storetrace.NewImageBuilder()
+	vh.Must(base.LoadDir(d1root), "load level-1 image")
+	tr.Install()
+	path := filepath.Join(d1root, "st")
+	tr.MaxActive[path] = w.c.MaxActive
+	st, err := store.Open(path, w.c.opts())
+	if err != nil {
+		storetrace.Uninstall()
+		return nil
+	}
+	w2 := &workload{c: w.c, root: d1root, path: path, tr: tr, st: st}
+	if err := tr.Adopt(path, st); err != nil {
+		storetrace.Uninstall()
+		st.Close()
+		return nil
+	}
+	stop := make(chan struct{})
+	var awg sync.WaitGroup
+	if w.c.Ext {
+		awg.Add(1)
+		go func() {
+			defer awg.Done()
+			for {
+				select {
+				case <-stop:
+					return
+				default:
+				}
+				st.AllowCommitUpto(st.LastPrecommittedTxID())
+				time.Sleep(200 * time.Microsecond)
+			}
+		}()
+	}
+	rng := rand.New(rand.NewSource(seed))
+	ctx, cancel := context.WithTimeout(context.Background(), 10*time.Second)
+	for i := 0; i < 3; i++ {
+		w2.commitOne(ctx, rng)
+	}
+	cancel()
+	close(stop)
+	awg.Wait()
+	time.Sleep(3 * time.Millisecond)
+	storetrace.Uninstall()
+	st.Close()
+	events, ops := tr.Events, tr.Ops
+	adoptIdx := 0
+	for i, e := range events {
+		if e["ev"] == "Adopt" {
+			adoptIdx = i
+			break
+		}
+	}
+	seg := &segment{events: events}
+	imgN := 0
+	for k := 0; k <= len(ops); k++ {
+		at := len(events)
+		if k < len(ops) {
+			at = ops[k].LSeq
+		}
+		if at <= adoptIdx {
+			at = adoptIdx + 1 // crashes during the recovery itself are judged against the adopted history
+		}
+		if k > 0 {
+			var acks []ack
+			for _, a := range w2.acks {
+				if a.evIdx < at {
+					acks = append(acks, a)
+				}
+			}
+			for _, m := range []storetrace.Mode{"kill", "power0"} {
+				imgN++
+				idir := filepath.Join(d1root+"_img", fmt.Sprintf("%d", imgN))
+				choice, err := base.Materialise(idir, m, rand.New(rand.NewSource(seed+int64(k))))
+				vh.Must(err, "materialise level 2")
+				rec := &recovered{K: r1.K*100000 + k, Mode: string(m) + "-after-" + r1.Mode, At: at, Choice: choice}
+				pre := ""
+				if kb := os.Getenv("VERIF_KEEPBAD"); kb != "" {
+					pre = filepath.Join(kb, fmt.Sprintf("pre_%d_%s", rec.K, m))
+					exec.Command("cp", "-r", idir, pre).Run()
+				}
+				w2.recoverImage(filepath.Join(idir, "st"), acks, committedBefore(events, at), rec)
+				if pre != "" && rec.ProofOk && rec.ChainOk && rec.OpenOk {
+					os.RemoveAll(pre)
+				}
+				os.RemoveAll(idir)
+				seg.recs = append(seg.recs, rec)
+				res.Count("second-level-images", 1)
+			}
+		}
+		if k < len(ops) {
+			base.Apply(ops[k])
+		}
+	}
+	os.RemoveAll(d1root + "_img")
+	return seg
+}
+
 func runOne(dir string, seed int64, runIdx int, thorough bool, res *vh.Result, out *os.File) {
+	deep := 6
+	if thorough {
+		deep = 30
+	}
 	rng := rand.New(rand.NewSource(seed*1000003 + int64(runIdx)))
 	c := pick(rng, runIdx)
 	root := filepath.Join(dir, fmt.Sprintf("run%d", runIdx))
@@ -519,6 +674,42 @@ func runOne(dir string, seed int64, runIdx int, thorough bool, res *vh.Result, o
 	close(jobs)
 	wg.Wait()
 
+	// ---- second level: continue on some recovered images and crash again (repeated crashes)
+	type l2seg struct {
+		events []storetrace.Event
+		recs   []*recovered
+	}
+	var l2 []l2seg
+	if deep > 0 {
+		// prefer crash points where recovery had a precommitted backlog to deal with
+		cand := []*recovered{}
+		for _, r := range recs {
+			if r.OpenOk && (r.Mode == "kill" || r.Mode == "powerR") {
+				cand = append(cand, r)
+			}
+		}
+		rng2 := rand.New(rand.NewSource(seed*7 + int64(runIdx)))
+		rng2.Shuffle(len(cand), func(i, j int) { cand[i], cand[j] = cand[j], cand[i] })
+		sort.SliceStable(cand, func(i, j int) bool { return backlogAt(events, cand[i].At) > backlogAt(events, cand[j].At) })
+		if len(cand) > deep {
+			cand = cand[:deep]
+		}
+		for ci, r1 := range cand {
+			d1root := filepath.Join(dir, fmt.Sprintf("deep%d_%d", runIdx, ci))
+			ib1 := storetrace.NewImageBuilder()
+			for k := 0; k < r1.K; k++ {
+				ib1.Apply(ops[k])
+			}
+			_, err := ib1.Materialise(d1root, storetrace.Mode(r1.Mode), rand.New(rand.NewSource(seed+int64(r1.K)*31+int64(len(r1.Mode)))))
+			vh.Must(err, "materialise level 1")
+			seg := w.secondLevel(d1root, r1, seed+int64(ci), res)
+			if seg != nil {
+				l2 = append(l2, l2seg{seg.events, seg.recs})
+			}
+			os.RemoveAll(d1root)
+		}
+	}
+
 	// ---- merge Recovered events into the logical trace at their crash positions
 	byAt := map[int][]*recovered{}
 	for _, r := range recs {
@@ -528,7 +719,7 @@ func runOne(dir string, seed int64, runIdx int, thorough bool, res *vh.Result, o
 	emitRecs := func(at int) {
 		for _, r := range byAt[at] {
 			e := map[string]interface{}{"ev": "Recovered", "store": "st", "k": r.K, "mode": r.Mode, "openOk": r.OpenOk, "c": r.C,
-				"alhs": r.Alhs, "chainOk": r.ChainOk, "contentOk": r.ContentOk, "extraValuesOk": r.ExtraValuesOk, "proofOk": r.ProofOk, "indexOk": r.IndexOk, "commitOk": r.CommitOk, "detail": r.Detail}
+				"alhs": r.Alhs, "chainOk": r.ChainOk, "linkOk": r.LinkOk, "contentOk": r.ContentOk, "extraValuesOk": r.ExtraValuesOk, "proofOk": r.ProofOk, "indexOk": r.IndexOk, "commitOk": r.CommitOk, "detail": r.Detail}
 			if r.Alhs == nil {
 				e["alhs"] = []int{}
 			}
@@ -546,6 +737,21 @@ func runOne(dir string, seed int64, runIdx int, thorough bool, res *vh.Result, o
 	}
 	emitRecs(len(events))
 	res.Traces++
+	for _, sg := range l2 {
+		byAt2 := map[int][]*recovered{}
+		for _, r := range sg.recs {
+			byAt2[r.At] = append(byAt2[r.At], r)
+		}
+		byAt = byAt2
+		enc.Encode(map[string]interface{}{"ev": "Reset", "store": "st", "synced": true, "ext": c.Ext, "cfg": fmt.Sprintf("%+v second-level (continuation after a first crash)", c)})
+		for i, e := range sg.events {
+			emitRecs(i)
+			enc.Encode(e)
+		}
+		emitRecs(len(sg.events))
+		res.Traces++
+		res.Count("second-level-segments", 1)
+	}
 	if runIdx == 0 && len(recs) > 2 {
 		res.Sample(map[string]interface{}{"cfg": fmt.Sprintf("%+v", c), "ops": len(ops), "example_image": recs[len(recs)/2]}, 4)
 	}
@@ -558,11 +764,15 @@ func main() {
 	dir := flag.String("dir", "", "scratch directory")
 	outp := flag.String("out", "", "ndjson trace output")
 	thorough := flag.Bool("thorough", false, "all crash modes at every point")
+	only := flag.Int("only", -1, "run only this workload index (debugging)")
 	flag.Parse()
 	out, err := os.Create(*outp)
 	vh.Must(err, "create trace file")
 	res := vh.NewResult()
 	for i := 0; i < *runs; i++ {
+		if *only >= 0 && i != *only {
+			continue
+		}
 		if os.Getenv("VERIF_DEBUG") != "" {
 			fmt.Fprintf(os.Stderr, "run %d\n", i)
 		}
